@@ -15,6 +15,8 @@ from harness.props import c05
 FREE = ["m0", "m1", "m2", "m3", "m4", "m5", "m6", "m7", "m8"]
 ADV = ["a", "ab", "a_b", "aa", "b", "ba", "a1", "_a", "A"]
 ADV2 = ["x", "xx", "xxx", "x_", "x_x", "X", "x1", "x11", "_x"]
+# non-ASCII identifiers: first characters below and above U+00FF, normalisation-unstable ones, next to ASCII
+ADVU = ["\u044f", "\u03b4x", "\u30c7\u30fc\u30bf", "\u00ffz", "\u00e9", "ab", "\u00df", "\u00b5", "\u0100a"]
 
 
 def abstract_tree(rng, max_nodes):
@@ -62,7 +64,7 @@ def _job(args):
         aedges = sorted(E)
         perm = list(range(9))
         rng.shuffle(perm)
-        namings = [FREE, [ADV[perm[i]] for i in range(9)], [ADV2[perm[(i + 3) % 9]] for i in range(9)]]
+        namings = [FREE, [ADV[perm[i]] for i in range(9)], [ADV2[perm[(i + 3) % 9]] for i in range(9)], [ADVU[perm[(i + 6) % 9]] for i in range(9)]]
         kind = "layer" if it % 3 == 2 else "rule"
         per_naming = []
         if kind == "rule":
@@ -74,6 +76,12 @@ def _job(args):
             k = min(k1, len(pick) - 1)
             sk, ok = rng.choice(["named", "sub"]), rng.choice(["named", "sub"])
             S, O = pick[:k], pick[k:]
+            nested = [(a, b) for a in cand for b in cand if len(b) > len(a) and b[:len(a)] == a]
+            if nested and rng.random() < 0.3:
+                a, b = rng.choice(nested)                 # a package listed together with one of its own sub modules
+                S = list(dict.fromkeys([b, a] + S))
+                O = [x for x in O if x not in S] or O
+                sk = "named"
             for names in namings:
                 nodes = [render(x, names) for x in anodes]
                 edges = [(render(a, names), render(b, names)) for a, b in aedges]
@@ -156,7 +164,7 @@ def run(ctx: Ctx):
     c17.rename_stream(ctx, 150 if ctx.quick else 3000)
     ctx.stat("abstract_cases", n)
     ctx.rule = (f"{n} abstract cases (tree over component ids, import relation, and either a module rule pick (1-2 subjects x 1-2 objects, both filter kinds, related allowed; 14 shapes) "
-                "or a layered architecture with a layer rule (14 shapes)) each materialised under three injective namings: collision-free, and two adversarial pools in which siblings are string "
+                "or a layered architecture with a layer rule (14 shapes)) each materialised under four injective namings: collision-free, a non-ASCII pool (first characters below and above U+00FF), and two adversarial pools in which siblings are string "
                 "prefixes/substrings of each other; real outcomes (verdict, parsed message lines, layer tags) compared after mapping names back to ids; plot labels likewise (see C17); "
                 "every evaluation also compared with the model; non-trivial = case whose shapes give different verdicts")
 
